@@ -134,6 +134,7 @@ where
             Di(Vec<Pixel<C>>),
             Fc(Rectangle, Vec<C>),
             Fcg(Rectangle, u32),
+            Fcm(Rectangle, u32, u32),
             Fs(Rectangle, C),
             Cl(C),
             So(Orientation),
@@ -165,6 +166,10 @@ where
                 let r = Rectangle::new(Point::new(t.n() as i32, t.n() as i32), Size::new(t.n() as u32, t.n() as u32));
                 Op::Fcg(r, t.n() as u32)
             }
+            "fcm" => {
+                let r = Rectangle::new(Point::new(t.n() as i32, t.n() as i32), Size::new(t.n() as u32, t.n() as u32));
+                Op::Fcm(r, t.n() as u32, t.n() as u32)
+            }
             "fs" => {
                 let r = Rectangle::new(Point::new(t.n() as i32, t.n() as i32), Size::new(t.n() as u32, t.n() as u32));
                 Op::Fs(r, c(t.n()))
@@ -193,6 +198,7 @@ where
                 Op::Di(px) => d.draw_iter(px),
                 Op::Fc(r, cols) => d.fill_contiguous(&r, cols),
                 Op::Fcg(r, n) => d.fill_contiguous(&r, (0..n).map(|k| M::ColorFormat::from_rawz(k & 0xFFFF))),
+                Op::Fcm(r, n, m) => d.fill_contiguous(&r, (0..n).map(|k| M::ColorFormat::from_rawz(k % m))),
                 Op::Fs(r, col) => d.fill_solid(&r, col),
                 Op::Cl(col) => d.clear(col),
                 Op::So(o) => d.set_orientation(o),
